@@ -411,6 +411,32 @@ Fixpoint final (validate : value -> bool) (s : st) (h : list input) : st :=
   | i :: h' => final validate (fst (step validate s i)) h'
   end.
 
+(* ------------------------------------------------------------------ batches (ValidationFilter.OnUpdates takes a slice) *)
+
+(* OnUpdates(updates): the forwarded batch has the same length and keys; position by position the value is the
+   input's value or nil, decided by that value alone - independent of the batch's other members *)
+Definition vf_filter_input (validate : value -> bool) (i : input) : input :=
+  {| i_key := i_key i; i_val := vf_filter validate (i_val i); i_sched := i_sched i; i_ord := i_ord i |}.
+Definition vf_filter_batch (validate : value -> bool) (b : list input) : list input := map (vf_filter_input validate) b.
+
+(* the sink behind the filter hands the forwarded batch to the ARC update by update, in order *)
+Fixpoint arc_batch (s : st) (b : list input) : st * list (list ev) :=
+  match b with
+  | [] => (s, [])
+  | i :: b' => let '(s1, evs) := arc_update s i in
+               let '(s2, evss) := arc_batch s1 b' in (s2, evs :: evss)
+  end.
+
+Definition step_batch (validate : value -> bool) (s : st) (b : list input) : st * list (list ev) :=
+  arc_batch s (vf_filter_batch validate b).
+
+(* a history delivered as a list of batches: one list of emitted events per update, in delivery order *)
+Fixpoint run_batches (validate : value -> bool) (s : st) (hb : list (list input)) : list (list ev) :=
+  match hb with
+  | [] => []
+  | b :: hb' => let '(s', evss) := step_batch validate s b in evss ++ run_batches validate s' hb'
+  end.
+
 (* ------------------------------------------------------------------ event equality (for the correspondence) *)
 
 Definition ev_eqb (a b : ev) : bool :=
